@@ -179,6 +179,7 @@ def gen_history(rng, stream: str = "main", max_ops: int = 40) -> Hist:
     n_other_sites = rng.choice([1, 2, 2, 3])
     other_sites = 0
     root_of: list[int] = []
+    union_order: dict = {}
 
     def fresh_tag():
         if unique:
@@ -259,6 +260,9 @@ def gen_history(rng, stream: str = "main", max_ops: int = 40) -> Hist:
             b2 = rng.randrange(len(classes))
             if b2 != b:
                 bases.append(b2)
+        # CPython caches Annotated[Union[A, B], d] by an order-insensitive key: Union[B, A] with an equal Discriminator
+        # would silently get the member order of the first one -> one order per member set and history
+        bases = union_order.setdefault(frozenset(bases), bases)
         sub, sup = rng.choice([(True, False), (True, False), (True, True), (True, True), (False, True)])
         # (X2) known finding nofield-inherited-unpacker: no-field mode through a nailed holder over plain dataclasses
         if stream != "kf" and kind == "nofield" and wiring != "codec" and any(classes[x]["plain"] for x in bases):
@@ -760,11 +764,20 @@ def run(ctx: vlib.Ctx):
 
     br = ctx.theorems("props/C12_discr.vo", THEOREMS)
     proofs_ok = br.ok
+    if proofs_ok and not ctx.quick():
+        # second opinion: the independent checker re-verifies the compiled library and reports axioms
+        rc, out, _ = vlib.run(["timeout", "600", "coqchk", "-silent", "-o", "-Q", "theories", "Verif", "-Q", "props", "VerifProps",
+                               "VerifProps.C12_discr"], cwd=vlib.COQ, timeout=640)
+        ok = rc == 0 and "* Axioms: <none>" in out
+        ctx.obligation("coqchk VerifProps.C12_discr (axioms: none)", ok, out[-600:])
+        if not ok:
+            proofs_ok = False
+            ctx.not_shown("coqchk VerifProps.C12_discr", out[-1500:])
 
     check_site_ok(ctx)
 
     # ---- histories: fixed edge cases + random ones
-    n_corr = ctx.budget(260, 5000)
+    n_corr = ctx.budget(260, 4000)
     hists = fixed_histories() + [gen_history(ctx.rng) for _ in range(n_corr)]
     cases = []
     results = []
@@ -818,7 +831,7 @@ def run(ctx: vlib.Ctx):
         account(h, observed, fails)
 
     # ---- further search (bigger when a proof or the correspondence broke)
-    n_more = ctx.budget(250, 4000)
+    n_more = ctx.budget(250, 3000)
     if not (proofs_ok and corr_ok):
         n_more *= 3
     for _ in range(n_more):
@@ -827,7 +840,7 @@ def run(ctx: vlib.Ctx):
         account(h, observed, fails)
 
     # ---- region of the known finding (kept out of the correspondence by (X2))
-    for _ in range(ctx.budget(60, 600)):
+    for _ in range(ctx.budget(60, 500)):
         h = gen_history(ctx.rng, stream="kf")
         observed, flags, fails = run_history(h)
         account(h, observed, fails)
